@@ -19,6 +19,25 @@ class Unsupported(Exception):
     pass
 
 
+# Integers (token positions, counts, tag ids) are 16-bit bit-vectors with signed comparison: every value
+# that occurs is in [-1, N + emitted items] (N <= 24), so nothing wraps; bit-blasting is far faster than
+# linear integer arithmetic over nested if-then-else terms.
+W = 16
+USE_BV = False   # measured: linear integer arithmetic is ~9x faster than bit-blasting on these formulas
+
+
+def IntV(v):
+    return z3.BitVecVal(v, W) if USE_BV else z3.IntVal(v)
+
+
+def IntVar(name):
+    return z3.BitVec(name, W) if USE_BV else z3.Int(name)
+
+
+def is_intterm(x):
+    return is_sym(x) and (z3.is_bv(x) or z3.is_int(x))
+
+
 # ----------------------------------------------------------------------------------------------
 # values
 # ----------------------------------------------------------------------------------------------
@@ -191,7 +210,7 @@ def If(c, a, b):
         return a if c else b
     if isinstance(a, bool) or isinstance(b, bool) or (is_sym(a) and z3.is_bool(a)) or (is_sym(b) and z3.is_bool(b)):
         return z3.If(c, B(a), B(b))
-    return z3.If(c, a if is_sym(a) else z3.IntVal(a), b if is_sym(b) else z3.IntVal(b))
+    return z3.If(c, a if is_sym(a) else IntV(a), b if is_sym(b) else IntV(b))
 
 
 def alt_of(v):
@@ -413,6 +432,23 @@ def merge_frames(c, fa, fb):
     return f
 
 
+_MISSING = object()
+
+
+def pat_names(pat):
+    k = pat["k"]
+    if k == "pident":
+        return [pat["name"]]
+    if k in ("ptuple", "ptuplestruct"):
+        out = []
+        for p in pat["elems"]:
+            out += pat_names(p)
+        return out
+    if k in ("ptype", "pref"):
+        return pat_names(pat["pat"])
+    return []
+
+
 class Machine:
     """Symbolic token list + interpreter."""
 
@@ -421,8 +457,9 @@ class Machine:
         self.N = N
         self.unroll = unroll if unroll is not None else N + 1
         self.cap_scale = cap_scale
-        self.n = z3.Int("n")
-        self.tag = [z3.Int("tag_%d" % i) for i in range(N)]
+        self.n = IntVar("n")
+        self.tagf = z3.Function("tag", z3.IntSort(), z3.IntSort())
+        self.tag = [self.tagf(z3.IntVal(i)) for i in range(N)]
         self.strtab = ["<UNK>"]
         self.strid = {}
         self.okf = {}
@@ -434,6 +471,8 @@ class Machine:
         self.caps_scaled = []
         self.fresh = 0
         self.notes = []
+        self.field_tags = {}
+        self.heur_used = []     # (guard, type, token index) of content-based (letter-less) variant guessing
 
     # -- token model ---------------------------------------------------------------------------
     def sid(self, s):
@@ -451,11 +490,8 @@ class Machine:
     def tag_at(self, pos):
         """tag at symbolic position (Int term), -1 if pos >= n."""
         if not is_sym(pos):
-            return z3.If(pos < self.n, self.tag[pos], z3.IntVal(-1)) if pos < self.N else z3.IntVal(-1)
-        t = z3.IntVal(-1)
-        for i in reversed(range(self.N)):
-            t = z3.If(pos == i, self.tag[i], t)
-        return z3.If(pos < self.n, t, z3.IntVal(-1))
+            return z3.If(pos < self.n, self.tag[pos], IntV(-1)) if 0 <= pos < self.N else IntV(-1)
+        return z3.If(z3.And(pos >= 0, pos < self.n), self.tagf(pos), IntV(-1))
 
     def tag_is(self, pos, s):
         """token at `pos` exists and has tag s (s: str or Alt of str)."""
@@ -467,18 +503,49 @@ class Machine:
         return Or(*conds)
 
     def ok(self, ty, idx):
+        """ok_T(idx): content of token idx is accepted by T::parse — one free Bool per (type, position)."""
         ty = self.prog.resolve_type(ty)
         if ty not in self.okf:
-            self.okf[ty] = z3.Function("ok_" + ty, z3.IntSort(), z3.BoolSort())
-        return self.okf[ty](idx if is_sym(idx) else z3.IntVal(idx))
+            self.okf[ty] = [z3.Bool("ok_%s_%d" % (ty, i)) for i in range(self.N)]
+        vs = self.okf[ty]
+        if not is_sym(idx):
+            return vs[idx] if 0 <= idx < self.N else False
+        t = z3.BoolVal(False)
+        for i in reversed(range(self.N)):
+            t = z3.If(idx == i, vs[i], t)
+        return t
+
+    def heur(self, ty, idx):
+        """Variant index picked by the content-based (letter-less) parser of enum T for token idx."""
+        if ty not in self.heurvar:
+            self.heurvar[ty] = [IntVar("heur_%s_%d" % (ty, i)) for i in range(self.N)]
+        vs = self.heurvar[ty]
+        if not is_sym(idx):
+            return vs[idx] if 0 <= idx < self.N else IntV(0)
+        t = IntV(0)
+        for i in reversed(range(self.N)):
+            t = z3.If(idx == i, vs[i], t)
+        return t
 
     def first_from(self, pos, s):
-        """(found, j): first token index j >= pos with tag_j == s."""
-        j = z3.IntVal(-1)
-        for i in reversed(range(self.N)):
-            hit = And(i < self.n, (pos <= i) if is_sym(pos) else (pos <= i), self.tag_is_at_index(i, s))
-            j = z3.If(B(hit), z3.IntVal(i), j)
-        return j >= 0, j
+        """(found, j): first token index j >= pos with tag_j == s. j is a fresh variable defined by
+        side constraints (functional: exactly one value satisfies them for every input)."""
+        self.fresh += 1
+        j = z3.Int("j%d" % self.fresh)
+        found = z3.Bool("found%d" % self.fresh)
+        P = pos if is_sym(pos) else z3.IntVal(pos)
+        cs = []
+        hits = []
+        for i in range(self.N):
+            hit = B(And(i < self.n, P <= i, self.tag_is_at_index(i, s)))
+            hits.append(hit)
+            # j == i  <=>  hit_i and no earlier hit
+            cs.append((j == i) == z3.And(hit, *[z3.Not(h) for h in hits[:-1]]))
+        cs.append(found == z3.Or(*hits) if hits else found == False)
+        cs.append(z3.Implies(z3.Not(found), j == -1))
+        cs.append(z3.And(j >= -1, j < self.N))
+        self.side += cs
+        return found, j
 
     def tag_is_at_index(self, i, s):
         conds = []
@@ -517,15 +584,20 @@ class Machine:
 
     # -- statements ------------------------------------------------------------------------------
     def exec_block(self, blk, fr, guard):
-        """Execute statements; returns the tail expression's value (or UNIT)."""
+        """Execute statements; returns the tail expression's value (or UNIT). `let` bindings made in the
+        block go out of scope at its end (a shadowed outer binding becomes visible again)."""
         val = UNIT
         stmts = blk["stmts"]
+        saved = {}
         for i, st in enumerate(stmts):
             k = st["k"]
             if k == "let":
                 init = self.eval(st["init"], fr, guard) if st.get("init") is not None else None
                 if st.get("else") is not None:
                     raise Unsupported("let-else at line %s" % st.get("line"))
+                for name in pat_names(st["pat"]):
+                    if name not in saved:
+                        saved[name] = fr.vars.get(name, _MISSING)
                 self.bind(st["pat"], init, fr)
                 val = UNIT
             elif k == "sexpr":
@@ -535,6 +607,11 @@ class Machine:
                 val = UNIT
             else:
                 raise Unsupported("statement kind %s" % k)
+        for name, old in saved.items():
+            if old is _MISSING:
+                fr.vars.pop(name, None)
+            else:
+                fr.vars[name] = old
         return val
 
     def bind(self, pat, val, fr):
@@ -804,7 +881,7 @@ class Machine:
         if op in ("==", "!="):
             r = self.equals(a, b)
             return r if op == "==" else Not(r)
-        num = lambda x: (isinstance(x, int) and not isinstance(x, bool)) or (is_sym(x) and z3.is_int(x))
+        num = lambda x: (isinstance(x, int) and not isinstance(x, bool)) or is_intterm(x)
         if num(a) and num(b):
             if op == "+":
                 return a + b
@@ -1363,6 +1440,14 @@ class Machine:
         if isinstance(recv, FieldV):
             if meth == "to_swift_string":
                 return FieldEmit(recv)
+        if isinstance(recv, FieldEmit):
+            if meth == "starts_with":
+                conds = []
+                for g, s in alt_of(args[0]):
+                    if not (isinstance(s, str) and len(s) >= 3 and s[0] == ":" and s[-1] == ":" and ":" not in s[1:-1]):
+                        raise Unsupported("starts_with(%r) on a serialised field is not a field marker" % (s,))
+                    conds.append(And(g, Or(*[ga for ga, t in self.emit_tag_alts(recv.fv) if t == s[1:-1]])))
+                return Or(*conds)
         if isinstance(recv, (Opaque, TokRef)) and meth in ("len", "is_empty", "trim", "lines", "chars"):
             return Opaque(meth)
         raise Unsupported("method .%s on %s (line %s)" % (meth, type(recv).__name__, e.get("line")))
@@ -1371,6 +1456,22 @@ class Machine:
         g = self.live(fr, guard)
         items = base.items if isinstance(base, EmitV) else (((True, base),) if base != "" else ())
         return EmitV(items + ((g, piece),))
+
+    def emit_tag_alts(self, fv):
+        """Tag that the serialiser of a parsed field value emits, as guarded alternatives of strings
+        (read from the to_swift_string bodies: layout.field_tags)."""
+        ty = self.prog.resolve_type(fv.ty)
+        if ty in self.prog.enums:
+            alts = []
+            for g, v in alt_of(fv.variant):
+                inner = self.prog.resolve_type(self.variant_inner(ty, v))
+                if inner not in self.field_tags:
+                    raise Unsupported("no serialiser tag known for %s" % inner)
+                alts.append((g, self.field_tags[inner]))
+            return alts
+        if ty not in self.field_tags:
+            raise Unsupported("no serialiser tag known for %s" % ty)
+        return [(True, self.field_tags[ty])]
 
     # -- primitives -------------------------------------------------------------------------------
     def prim_extract(self, args):
@@ -1392,12 +1493,10 @@ class Machine:
             # trait default: Self::parse(value)
         # uninterpreted parse
         if ty in self.prog.enums:
-            key = ty
-            if key not in self.heurvar:
-                self.heurvar[key] = z3.Function("heur_" + ty, z3.IntSort(), z3.IntSort())
             variants = [v["name"] for v in self.prog.enums[ty]["variants"]]
-            hv = self.heurvar[key](content.idx if is_sym(content.idx) else z3.IntVal(content.idx))
+            hv = self.heur(ty, content.idx)
             self.fresh += 1
+            self.heur_used.append((self.live(fr, guard), ty, content.idx))
             var = mk_alt([(hv == k, v) for k, v in enumerate(variants[:-1])] + [
                 (z3.And(*[hv != k for k in range(len(variants) - 1)]) if len(variants) > 1 else True, variants[-1])])
             return Res(self.ok(ty, content.idx), FieldV(content.idx, ty, var), Opaque("field-parse-error"))
